@@ -472,3 +472,12 @@ M("C10", "trim-keeps-one-trailing", SM, "        slice_to = -num_trailing if num
 M("C10", "trim-all-missing-not-reset", SM, "        if num_trailing == self.data.shape[0]:\n            self.reset()\n            return self\n", "", "C10-R1")
 T("C10", "twin-trim-or-none", SM, "        slice_to = -num_trailing if num_trailing else None", "        slice_to = -num_trailing or None")
 T("C10", "twin-trim-demorgan", SM, "        if not num_leading and not num_trailing:\n            return self", "        if not (num_leading or num_trailing):\n            return self")
+T("C03", "twin-period-loop-explicit-start", KAL, "    for t in range(cache.num_periods, ):\n        cache.all_a0[t] += cache.all_Xi[t] @ delta", "    for t in range(0, cache.num_periods, 1):\n        cache.all_a0[t] += cache.all_Xi[t] @ delta")
+SIMU = "simultaneous/_simulate.py"
+T("C07", "twin-snapshot-after-create-frames", SIMU, "            input_data_array = dataslate_v.get_data_variant().copy()\n\n            frames = simulator_module.create_frames(\n                model_v, dataslate_v, plan,\n                force_split_frames=force_split_frames,\n            )\n", "            frames = simulator_module.create_frames(\n                model_v, dataslate_v, plan,\n                force_split_frames=force_split_frames,\n            )\n\n            input_data_array = dataslate_v.get_data_variant().copy()\n")
+T("C06", "twin-simulation-end-named-params", "stacked_time/simulators.py", "        get_simulation_end=lambda *_, : base_end,", "        get_simulation_end=lambda start, end: base_end,")
+M("C06", "stacked-frames-stop-at-frame-end", "stacked_time/simulators.py", "        get_simulation_end=lambda *_, : base_end,", "        get_simulation_end=lambda start, end: end,", "C06-R8")
+M("C01", "anticipated-impact-to-frame-end", "fords/shock_simulators.py", "    last_column = frame.simulation_end - dataslate_v.periods[0]", "    last_column = frame.end - dataslate_v.periods[0]", "C01-R8")
+M("C02", "lagged-state-read-one-more-back", "fords/systems.py", "            xi_lagged = _get_vector(descriptor, data_array_lagged, tokens, logly, column_offset, )", "            xi_lagged = _get_vector(descriptor, data_array_lagged, tokens, logly, column_offset-1, )", "C02-R6")
+T("C02", "twin-lag-in-offset-not-array", "simultaneous/main.py", "shift_in_first_column=min_shift-1, )", "shift_in_first_column=min_shift-2+1, )")
+M("C04", "populate-logly-endogenous-only", "sources.py", "            if qty.kind not in QuantityKind.LOGGABLE_VARIABLE:", "            if qty.kind not in QuantityKind.ENDOGENOUS_VARIABLE:", "C04-R7")
